@@ -124,6 +124,16 @@ def mismatch_nest(repo, res, a):
                 zero = x.has(f"np.count_nonzero({which}) == 0", True)
                 res.check(bare and zero, f"unify:{eff}#{i}", fn.where(a.differ_if), "units are unified without a dimension check outside the bare all-zero exception (one operand is not a unyt_array and the operand that adopts the other's unit has no non-zero element)", f"not isinstance(.., unyt_array) and np.count_nonzero({which}) == 0", sorted(x.facts), path=[f"{t}={tr}" for t, tr in sorted(x.facts)], rid=r2)
     res.check(n_unify >= 2, "zero-test", fn.where(a.differ_if), "the all-zero exception (bare zeros may be added / compared) is present for either operand", rid=r2)
+    # the allowances above rest on Unit.is_dimensionless: it must be true for the dimensionless dimension only (a plane
+    # angle, a logarithmic level ... are dimensions of their own and must be refused in `length < angle`)
+    uo = repo.mod(UO)
+    isd = uo.func("Unit.is_dimensionless")
+    res.fn(isd)
+    rets = [n.value for n in walk_no_nested(isd.node) if isinstance(n, ast.Return) and n.value is not None]
+    ONE = ("sympy_one", "dimensionless", "dimensions.dimensionless", "S.One", "1")
+    forms = {f"self.dimensions {op} {c}" for op in ("is", "==") for c in ONE} | {f"{c} {op} self.dimensions" for op in ("is", "==") for c in ONE}
+    ok_isd = len(rets) >= 1 and all(norm(r) in forms or (isinstance(r, ast.BoolOp) and isinstance(r.op, ast.Or) and all(norm(v) in forms for v in r.values)) for r in rets)
+    res.check(ok_isd, "is_dimensionless", isd.where(), "Unit.is_dimensionless must hold for the dimensionless dimension only: a wider test (e.g. also angles) lets ordering comparisons between a length and an angle through the dimension check", "self.dimensions is sympy_one", [norm(r) for r in rets], rid=r2)
     # the block is entered whenever the units differ
     from rules.ufunc import differ_entry
 
@@ -390,4 +400,5 @@ MUTANTS = [
     Mutant("entry-by-spelling", ARR, "unyt_array.__array_ufunc__", "if u0 is not u1 and u0 != u1:", "if u0 is not u1 and u0.expr != u1.expr:", ("C01-R2",)),
     Mutant("entry-without-identity-shortcut", ARR, "unyt_array.__array_ufunc__", "if u0 is not u1 and u0 != u1:", "if u0 != u1:", (), benign=True),
     Mutant("coerce-list-bare-elements-match", ARR, "_coerce_iterable_units", 'ff != getattr(_, "units", NULL_UNIT)', 'ff != getattr(_, "units", ff)', ("C01-R8",)),
+    Mutant("angles-count-as-dimensionless", UO, "Unit.is_dimensionless", "return self.dimensions is sympy_one", "return self.dimensions is sympy_one or self.dimensions is angle", ("C01-R2",)),
 ]
